@@ -25,6 +25,7 @@ type Ctx struct {
 	reachMem map[string]map[*ssa.Function][]*ssa.Function
 
 	Notes []string
+	Verif string // verification directory (frozen tables)
 
 	tlg *TLG
 }
